@@ -143,6 +143,8 @@ func run(c *fw.Ctx) {
 	seqPart(c, mine)
 	// value carried by a wrapped Ethereum transaction down to the contract executor
 	carriedPart(c, mine)
+	// ... and all the way into the EVM (block executor: decode, fee pre-check, vm.Call)
+	evmPart(c, mine)
 	// token balances re-scaled at the account database's boundary, every decimal count
 	ftPart(c, mine)
 
@@ -314,6 +316,12 @@ func replay(c *fw.Ctx, raw json.RawMessage) {
 		json.Unmarshal(raw, &fc)
 		carriedSetup()
 		ftOne(c, fc.Dec, fc.X, fc.Y, fc.Z)
+	case "evm":
+		var ec evmCase
+		json.Unmarshal(raw, &ec)
+		carriedSetup()
+		n, _ := new(big.Int).SetString(ec.N, 10)
+		evmOne(c, n, ec.Data, ec.Gas)
 	case "carried":
 		n, _ := new(big.Int).SetString(k.N, 10)
 		carriedSetup()
